@@ -131,6 +131,16 @@ def r3(R, repo):
   R.check("params_with_opt = params['params'] if OVERWRITE_WITH_GRADIENT in params else params" in astu.src(cr.node) and 'opt_state = tx.init(params_with_opt)' in astu.src(cr.node) and 'params=params' in astu.src(cr.node),
           key_of(cr, 'tx.init on the optimised sub-tree, full params stored'), cr, 'TrainState.create must initialise the optimizer on the sub-tree that apply_gradients optimises and store the full params')
   src = astu.src(ag.node)
+  # the new params of the overwrite-with-gradient case: a dict whose overwrite collection is the *gradient*, not the old value
+  owg_old = None
+  for d_ in [n_ for n_ in ast.walk(ag.node) if isinstance(n_, ast.Dict)]:
+    splat_old = [v_ for k_, v_ in zip(d_.keys, d_.values) if k_ is None and astu.src(v_) in ('self.params', 'params')]
+    has_owg = any(k_ is not None and astu.src(k_) == 'OVERWRITE_WITH_GRADIENT' for k_ in d_.keys)
+    if splat_old and not has_owg and any(k_ is not None and astu.const_str(k_) == 'params' for k_ in d_.keys):
+      owg_old = d_
+  if owg_old is not None:
+    R.fail(key_of(ag, 'overwrite-with-gradient branch keeps the same sub-tree'), (ag, owg_old), '`%s` takes the overwrite-with-gradient collection from the *old* params: those entries are meant to be overwritten by their gradients on every step, so they now never change' % astu.short(owg_old))
+    return
   R.check("params_with_opt = self.params['params']" in src and "grads_with_opt = grads['params']" in src and 'OVERWRITE_WITH_GRADIENT: grads[OVERWRITE_WITH_GRADIENT]' in src, key_of(ag, 'overwrite-with-gradient branch keeps the same sub-tree'), ag,
           "with OVERWRITE_WITH_GRADIENT the 'params' sub-tree must be optimised and the overwrite collection replaced by its gradient")
   hc = repo.func(HE, 'TrainState.create')
